@@ -47,6 +47,7 @@ CONS = [("REQ", "REQ", "REQ", {}), ("OPT", "OPT", "OPT", {}),
         ("T_LIT", "TYPE[LITERAL]", "TYPE", {"ty": "LITERAL"}),
         ("RE_lower", 'REGEX["^[a-z]+$"]', "REGEX", {"re": "lower"}), ("RE_d3", 'REGEX["^[0-9]{3}$"]', "REGEX", {"re": "d3"}),
         ("RE_alt", 'REGEX["^(ab|cd)x?$"]', "REGEX", {"re": "alt"}), ("RE_dot", 'REGEX["^a.c$"]', "REGEX", {"re": "dot"}),
+        ("RE_digits", 'REGEX["^[0-9]+$"]', "REGEX", {"re": "digits"}),
         ("RANGE_1_10", "RANGE[1,10]", "RANGE", {"lo": "1", "hi": "10"}), ("RANGE_h", "RANGE[0.5,2.5]", "RANGE", {"lo": "0.5", "hi": "2.5"}),
         ("RANGE_5", "RANGE[5,5]", "RANGE", {"lo": "5", "hi": "5"}),
         ("MIN_0", "MIN_LENGTH[0]", "MIN", {"n": 0}), ("MIN_2", "MIN_LENGTH[2]", "MIN", {"n": 2}),
